@@ -163,8 +163,37 @@ fn make_simple_summary_txs(
         };
         (vec![summary_tx], Vec::new())
     } else {
-        (Vec::new(), vec![SHARE_BALANCE_ZERO_WARNING.to_string()])
+        (
+            make_zero_share_acb_summary_txs(af, &deltas[latest_summarizable_delta_idx]),
+            vec![SHARE_BALANCE_ZERO_WARNING.to_string()],
+        )
     }
+}
+
+/// An affiliate can hold no shares and still carry a cost base (a superficial
+/// loss adjustment credited to them after they sold everything, ahead of their
+/// re-purchase settling). That cost base cannot be expressed as a purchase of
+/// zero shares, so it is carried over as an ACB adjustment instead.
+fn make_zero_share_acb_summary_txs(af: &Affiliate, delta: &TxDelta) -> Vec<Tx> {
+    let acb = match delta.post_status.total_acb {
+        Some(total_acb) => match PosDecimal::try_from(*total_acb) {
+            Ok(acb) => acb,
+            Err(_) => return Vec::new(),
+        },
+        None => return Vec::new(),
+    };
+    vec![Tx {
+        security: delta.tx.security.clone(),
+        trade_date: delta.tx.settlement_date,
+        settlement_date: delta.tx.settlement_date,
+        action_specifics: super::TxActionSpecifics::Sfla(super::SflaTxSpecifics {
+            shares_affected: PosDecimal::one(),
+            amount_per_share: acb,
+        }),
+        memo: "Summary (ACB carried with no shares)".to_string(),
+        affiliate: af.clone(),
+        read_index: 0,
+    }]
 }
 
 fn make_annual_gains_summary_txs(
@@ -297,6 +326,13 @@ fn make_annual_gains_summary_txs(
         };
 
         summary_period_txs.push(summary_tx);
+    }
+
+    if sum_post_status.share_balance.is_zero() {
+        summary_period_txs.extend(make_zero_share_acb_summary_txs(
+            af,
+            &deltas[latest_summarizable_delta_idx],
+        ));
     }
 
     (summary_period_txs, warnings)
